@@ -2,15 +2,16 @@ from propcommon import *  # noqa
 
 CFG = dict(
     level="proof",
-    lean_modules=["ElysModel.Props.C10"],
-    props_files=["ElysModel/Props/C10.lean"],
+    lean_modules=["ElysModel.Props.C10", "ElysModel.Props.C10Src"],
+    pre_cmds=[GO2LEAN],
+    props_files=["ElysModel/Props/C10.lean", "ElysModel/Props/C10Src.lean"],
     runs=[dict(mode="c10", n_quick=120, n_thorough=600, shards_quick=8, shards_thorough=14, env_quick={"VERIF_HISTS": "1"}, env_thorough={"VERIF_HISTS": "3"})],
     rule="probe rounds on the real app through real blocks: 16 leveraged-LP and perpetual positions per world (both sides, leverage 1.5-10, owners' stop losses incl. 0), a price move, "
          "governance forcing a safety factor to within 1e-6 of some position's predicted health, then a third party's MsgClosePositions naming random positions in random lists; "
          "an evaluation is one (position, block) case or one open / non-owner close; non-trivial = distinct case lines",
-    trusted_base=COMMON_TB + ["health and prices each handler will see are predicted on a discarded cache context advanced to the probe block's time through the keepers' own exported "
+    trusted_base=COMMON_TB + [SRC_TB, "health and prices each handler will see are predicted on a discarded cache context advanced to the probe block's time through the keepers' own exported "
                               "functions (the property is about the decision, not the health formula)"],
-    assumptions=["interest/funding settlement may change a perpetual position's custody without closing it; 'altered' means removed, or collateral / principal changed (and size for leveragelp)"],
+    assumptions=[SRC_ASSUME, "source tie of the forced-close guards: a LegacyDec read from a stored position is never nil (IsNil() is read as false); the deferred recover() of the handlers is not modelled", "interest/funding settlement may change a perpetual position's custody without closing it; 'altered' means removed, or collateral / principal changed (and size for leveragelp)"],
     explanation="Theorems: a position is changed by third-party attempts only if the guard of an attempted path held; otherwise it is untouched; the as-coded guards imply the property's "
                 "conditions at every positive price; opens are accepted only with health above the safety factor; non-owner close fails; witness of the repaired short/zero-stop-loss defect. "
                 "Every (position, block) case is judged against the decision model and the property's own condition."
